@@ -201,6 +201,20 @@ def finishing_overlaps():
     return out
 
 
+def requests_from_hook_tasks():
+    """a plugin (an "auto mode": when a run has finished, load the next script) starts a task from inside its on_finished hook; that
+    task resets the object twice; its second reset is held in the reset hook of a user plugin while an ordinary task requests a
+    run: the requests of a task that was CREATED INSIDE A TRANSITION are serialised like everybody else's (C15)"""
+    out = []
+    for gate in ('reset', 'on_change_script', 'on_initialize_run'):
+        steps = START + [['register_spawner', 'S', 'on_finished', [['reset', {'statement': 'B'}], ['reset', {'statement': 'C'}]]]] + RUN_A + \
+            [['child', 'return'], settle(0.5), ['child_reset'], ['hold', gate], ['spawner_go'], settle(0.3),
+             ['call', 'A', 'run'], settle(0.5), ['sample'], ['release_all'], ['unhold', gate], settle(0.5), ['sample'],
+             ['call', 'B', 'run'], settle(0.4), ['sample'], ['child', 'return'], settle(0.6), ['sample']]
+        out.append(S(steps, dict(family='requests-from-hook-task', gate=gate, expect_complete=False)))
+    return out
+
+
 def failing_to_deliver():
     """the statement is a callable that cannot be sent to the child: the child process is spawned, the call never reaches
     it, the run ends with the error -- 'finished' only once that child has gone, and a reset + run right after it never
